@@ -261,6 +261,9 @@ func protoBad(r *RNG, keys []string) []byte {
 
 var mutRNG *RNG
 
+// late: the commands of the overdue phase (nil: no such phase); set by the generator or by a `latestream` replay line
+var late []byte
+
 func protoRun(c *Ctx, id string, cfg protoCfg, stream []byte, home string) {
 	os.RemoveAll(home)
 	os.MkdirAll(home, 0o755)
@@ -294,6 +297,9 @@ func protoRun(c *Ctx, id string, cfg protoCfg, stream []byte, home string) {
 		cv = 1
 	}
 	c.line("case %s bodyinc=%d bodymax=%d checkvhash=%d chunk=%d listkey=%d version=%s", id, cfg.bodyInC, cfg.bodyMax, cv, cfg.chunk, cfg.listKey, hx([]byte(config.Version)))
+	if late != nil {
+		c.line("latestream %s", hx(late))
+	}
 	c.line("stream %s", hx(stream))
 	conn := &memConn{in: stream, chunk: cfg.chunk}
 	sc := mc.NewServerConnVerif(conn)
@@ -323,6 +329,31 @@ func protoRun(c *Ctx, id string, cfg protoCfg, stream []byte, home string) {
 		if e != nil {
 			break
 		}
+	}
+	// the overdue phase: a command whose bytes arrive later than timeout_ms after its first line is answered
+	// RECV_TIMEOUT and dropped without being processed.  With a negative timeout EVERY command is overdue, which makes
+	// that path deterministic (no sleeping): whatever Request.Read took for the command (a body buffer counted in
+	// SetData, the incr count, a request token) must have been given back when the connection is idle again.
+	if late != nil {
+		config.MCConf.TimeoutMS = -1
+		lconn := &memConn{in: late}
+		lsc := mc.NewServerConnVerif(lconn)
+		for steps := 0; !lsc.VerifClosing() && steps < 100; steps++ {
+			before := lconn.pos - lsc.VerifBuffered()
+			lconn.out.Reset()
+			var e error
+			p := guard(func() { e = lsc.ServeOnce(cl, stats) })
+			after := lconn.pos - lsc.VerifBuffered()
+			res := ""
+			if p != "" {
+				res = " PANIC"
+			}
+			c.line("late n=%d led=%s%s => %s", after-before, ledger(), res, hx(lconn.out.Bytes()))
+			if e != nil || after == before {
+				break
+			}
+		}
+		config.MCConf.TimeoutMS = 1 << 30
 	}
 	guard(func() { hs.VerifFlush() })
 	c.line("final led=%s", ledger())
@@ -480,9 +511,12 @@ func engineProto(c *Ctx) {
 						cfg.listKey = int(v)
 					}
 				}
+			case "latestream":
+				late = unhx(l.args[0])
 			case "stream":
 				n++
 				protoRun(c, id, cfg, unhx(l.args[0]), filepath.Join(base, fmt.Sprintf("replay%d", n)))
+				late = nil
 			}
 		}
 		return
@@ -520,9 +554,17 @@ func engineProto(c *Ctx) {
 		} else {
 			c.count("stream.grammatical")
 		}
+		late = nil
+		if lr := r.Fork(77); lr.Chance(35) {
+			for i := 0; i < 1+lr.Intn(4); i++ {
+				late = append(late, protoCmd(lr, keys)...)
+			}
+			c.count("stream.with-overdue-phase")
+		}
 		mutRNG = r.Fork(31)
 		protoRun(c, fmt.Sprintf("%d-%d", c.seed, ci), cfg, stream, filepath.Join(base, fmt.Sprintf("case%d", ci)))
 		mutRNG = nil
+		late = nil
 		for i := 0; i < 6; i++ {
 			protoWire(c, r, keys)
 		}
